@@ -149,6 +149,14 @@ class Check:
         outs = pool.run_jobs(binder, jobs, nproc=nproc, timeout=timeout, env=env)
         merged = {}
         for o in outs:
+            if isinstance(o, dict) and 'machinery_error' in o and o.get('through_repo'):
+                # the code under test raised something no harness path anticipated: that is a finding about the code
+                self.violation({'leg': 'L3', 'kind': 'unexpected-exception', 'binder': binder,
+                                'exc_type': o.get('exc_type'), 'repo_frames': o.get('repo_frames'),
+                                'traceback': o['machinery_error'][-4000:]},
+                               sig={'leg': 'L3', 'kind': 'unexpected-exception', 'binder': binder,
+                                    'exc': o.get('exc_type'), 'at': (o.get('repo_frames') or ['?'])[-1]})
+                continue
             if o is None or 'machinery_error' in o or o.get('timeout'):
                 raise Machinery(f'binder {binder}: runner failed: {json.dumps(o)[:3000]}')
             for k, v in o.items():
